@@ -270,7 +270,7 @@ func (a *Agent) gatherCandidatesInternal(ctx context.Context) {
 		case CandidateTypeHost:
 			wg.Add(1)
 			go func() {
-				a.gatherCandidatesLocal(ctx, a.networkTypes)
+				a.gatherCandidatesLocal(ctx, configuredNetworkTypes(a.networkTypes))
 				wg.Done()
 			}()
 		case CandidateTypeServerReflexive:
@@ -295,9 +295,9 @@ func (a *Agent) gatherServerReflexiveCandidates(ctx context.Context, wg *sync.Wa
 		wg.Add(1)
 		go func() {
 			if a.udpMuxSrflx != nil {
-				a.gatherCandidatesSrflxUDPMux(ctx, a.urls, a.networkTypes)
+				a.gatherCandidatesSrflxUDPMux(ctx, a.urls, configuredNetworkTypes(a.networkTypes))
 			} else {
-				a.gatherCandidatesSrflx(ctx, a.urls, a.networkTypes)
+				a.gatherCandidatesSrflx(ctx, a.urls, configuredNetworkTypes(a.networkTypes))
 			}
 			wg.Done()
 		}()
@@ -305,7 +305,7 @@ func (a *Agent) gatherServerReflexiveCandidates(ctx context.Context, wg *sync.Wa
 	if a.addressRewriteMapper != nil && a.addressRewriteMapper.hasCandidateType(CandidateTypeServerReflexive) {
 		wg.Add(1)
 		go func() {
-			a.gatherCandidatesSrflxMapped(ctx, a.networkTypes)
+			a.gatherCandidatesSrflxMapped(ctx, configuredNetworkTypes(a.networkTypes))
 			wg.Done()
 		}()
 	}
